@@ -168,7 +168,18 @@ pub fn gen_fix_program(rng: &mut Rng) -> (String, String) {
   match rng.below(12) {
     0 | 1 | 2 => ("jsx-no-unescaped-entities".into(), format!("const a = <div>{}</div>;", payload(rng, &[">", "}"]).replace('"', "q"))),
     3 | 4 => ("jsx-curly-braces".into(), format!("const a = <div foo={{\"{}\"}} />;", payload(rng, &[]).replace('\\', "\\\\").replace('"', "\\\""))),
-    5 => ("jsx-curly-braces".into(), format!("const a = <div>{{\"{}\"}}</div>;", payload(rng, &[]).replace('\\', "").replace('"', "'"))),
+    5 => {
+      // the literal's *value* decides what may lose its braces; special characters may be written as escapes
+      let mut p = payload(rng, &[]).replace('\\', "").replace('"', "'");
+      if rng.chance(1, 2) {
+        let esc = ["\\x3c", "\\u003C", "\\x7b", "\\x7d", "\\u{3e}", "\\x3e y", "\\u007B", "\\x26amp;", "\\n", "\\u00e9"][rng.below(10)];
+        let at = rng.below(p.chars().count() + 1);
+        let cs: Vec<char> = p.chars().collect();
+        p = format!("{}{}{}", cs[..at].iter().collect::<String>(), esc, cs[at..].iter().collect::<String>());
+      }
+      let tail = ["", "<b/>", " text", "{x}"][rng.below(4)];
+      ("jsx-curly-braces".into(), format!("const a = <div>{{\"{}\"}}{}</div>;", p, tail))
+    }
     6 => ("jsx-boolean-value".into(), format!("const a = <Foo {}={{true}} b />;", ["bar", "data-x", "aria-hidden"][rng.below(3)])),
     7 => ("jsx-props-no-spread-multi".into(), "const a = <div {...p} x=\"1\" {...p} {...q} {...p} />;".into()),
     8 => ("no-window".into(), format!("{}window.{}; function f() {{ return window.location; }}", if rng.chance(1, 2) { "" } else { "const x = 1;\n" }, ["foo", "fetch()", "x.y"][rng.below(3)])),
@@ -177,13 +188,15 @@ pub fn gen_fix_program(rng: &mut Rng) -> (String, String) {
       // with and without imports before the use; what follows the last import on its line may be a construct that
       // continues on the next line (block comment, template, a statement broken over lines)
       let use_ = format!("const e = process.{}; process.exit(1);", ["env.X", "argv", "cwd()"][rng.below(3)]);
-      let src = match rng.below(7) {
+      let src = match rng.below(9) {
         0 => use_,
         1 => format!("import a from \"b\";\n{}", use_),
         2 => format!("import a from \"b\"; /* the entry point\n of the tool */\n{}", use_),
         3 => format!("import a from \"b\"; const usage = `\n ${{a}} ${{process.argv[1]}}\n`;"),
         4 => format!("import a from \"b\"; // trailing\nimport c from \"d\"; f(\n  process.argv,\n);"),
         5 => format!("import a from \"b\"; const s = \"x\\\n y\"; {}", use_),
+        6 => format!("import z from \"z\";\ndeclare module \"x\" {{ import y from \"y\"; }}\n{}", use_),
+        7 => format!("declare module \"x\" {{ import y from \"y\"; }}\n{}", use_),
         _ => format!("import {{\n  a,\n}} from \"b\"; let v =\n  process.env;"),
       };
       ("no-process-global".into(), src)
@@ -604,7 +617,8 @@ pub fn run(args: &Args) {
       }
       // LF -> CRLF outside string/template/regex/JSX-text tokens
       if !src.contains('\r') {
-        if let Some((s3, map)) = crlf_convert(&ps, &src) {
+        for protect in [true, false] {
+        if let Some((s3, map)) = crlf_convert(&ps, &src, protect) {
           match lint(&all, &s3, ext) {
             Outcome::Ok(d3) => {
               let tr = |x: usize| map[x];
@@ -626,18 +640,33 @@ pub fn run(args: &Args) {
                 let missing: Vec<Value> = a.iter().filter(|x| !b.contains(x)).map(|x| x.json()).collect();
                 let extra: Vec<Value> = b.iter().filter(|x| !a.contains(x)).map(|x| x.json()).collect();
                 let codes: BTreeSet<String> = missing.iter().chain(extra.iter()).map(|v| v["code"].as_str().unwrap_or("").to_string()).collect();
-                out.found("C09", &format!("crlf:{}", codes.into_iter().collect::<Vec<_>>().join("+")), &src, json!({"meta": meta, "missing": missing, "extra": extra}));
+                out.found("C09", &format!("{}:{}", if protect { "crlf" } else { "crlf-everywhere" }, codes.into_iter().collect::<Vec<_>>().join("+")), &src, json!({"meta": meta, "missing": missing, "extra": extra, "converted": s3}));
               }
             }
             Outcome::Panic(m) => out.found("C01", "panic:crlf", &s3, json!({"meta": meta, "panic": m})),
             Outcome::ParseErr(_) => out.count("c09-crlf-parse-err"),
           }
         }
+        }
       }
     }
 
     if want("C13") {
-      for d in &ds {
+      // under the media type the program was linted with, and under the JavaScript media types too when it parses
+      // there (fixes must not introduce syntax the file's language does not have)
+      let mut runs: Vec<(String, Vec<D>)> = vec![(ext.to_string(), ds.clone())];
+      for e2 in ["js", "jsx", "mjs"] {
+        if e2 != ext && case_no % 3 == 0 {
+          if let Outcome::Ok(d2) = lint(&all, &src, e2) {
+            if d2.iter().any(|d| !d.fixes.is_empty()) {
+              runs.push((e2.to_string(), d2));
+            }
+          }
+        }
+      }
+      for (ext, ds) in &runs {
+      let ext = ext.as_str();
+      for d in ds {
         for (fi, (_desc, ch)) in d.fixes.iter().enumerate() {
           let Some(fixed) = apply_fix(&src, ch) else { continue };
           out.count("fix-applied");
@@ -651,13 +680,14 @@ pub fn run(args: &Args) {
               let nb = before.iter().filter(|x| x.code == d.code).count();
               let na = after.iter().filter(|x| x.code == d.code).count();
               if na >= nb {
-                out.found("C13", &format!("not-fewer:{}", d.code), &src, json!({"meta": meta, "fix": fi, "fixed": fixed, "before": nb, "after": na, "diag": d.json()}));
+                out.found("C13", &format!("not-fewer:{}", d.code), &src, json!({"meta": meta, "ext": ext, "fix": fi, "fixed": fixed, "before": nb, "after": na, "diag": d.json()}));
               }
             }
-            Outcome::ParseErr(e) => out.found("C13", &format!("fixed-text-does-not-parse:{}", d.code), &src, json!({"meta": meta, "fix": fi, "fixed": fixed, "error": e, "diag": d.json()})),
+            Outcome::ParseErr(e) => out.found("C13", &format!("fixed-text-does-not-parse:{}", d.code), &src, json!({"meta": meta, "ext": ext, "fix": fi, "fixed": fixed, "error": e, "diag": d.json()})),
             Outcome::Panic(m) => out.found("C01", &format!("panic:{}", d.code), &fixed, json!({"meta": meta, "panic": m})),
           }
         }
+      }
       }
     }
     if replay.is_some() {
@@ -733,7 +763,7 @@ pub fn exotic_whitespace(rng: &mut Rng, src: &str, ext: &str, every_gap: bool, f
   }
 }
 
-fn crlf_convert(ps: &ParsedSource, src: &str) -> Option<(String, Vec<usize>)> {
+fn crlf_convert(ps: &ParsedSource, src: &str, protect: bool) -> Option<(String, Vec<usize>)> {
   use deno_ast::swc::parser::token::Token;
   use deno_ast::SourceRangedForSpanned;
   if ps.text().as_ref() != src {
@@ -742,7 +772,7 @@ fn crlf_convert(ps: &ParsedSource, src: &str) -> Option<(String, Vec<usize>)> {
   let b = ps.text_info_lazy().range().start;
   let mut protected = vec![false; src.len() + 1];
   for t in ps.tokens().iter() {
-    let prot = matches!(t.token, Token::Str { .. } | Token::Template { .. } | Token::Regex(..) | Token::JSXText { .. } | Token::BackQuote);
+    let prot = protect && matches!(t.token, Token::Str { .. } | Token::Template { .. } | Token::Regex(..) | Token::JSXText { .. } | Token::BackQuote);
     if prot {
       for i in t.start().as_byte_index(b)..t.end().as_byte_index(b) {
         protected[i] = true;
@@ -755,7 +785,7 @@ fn crlf_convert(ps: &ParsedSource, src: &str) -> Option<(String, Vec<usize>)> {
     if c == b'`' {
       in_tpl = !in_tpl;
     }
-    if in_tpl {
+    if in_tpl && protect {
       protected[i] = true;
     }
   }
